@@ -348,11 +348,15 @@ func runSession(w *sched.W, tag string, t *cm.TreeDev, root, desired string, sta
 	})
 }
 
-func pairScenario(par []int, mask int, maxChunk, env int) sched.Scenario {
+func pairScenario(par []int, mask int, maxChunk, env int, noask ...bool) sched.Scenario {
 	n := len(par)
 	name := fmt.Sprintf("pairs/shape=%v/auth=%d/chunk=%d/env=%d", par, mask, maxChunk, env)
+	if len(noask) > 0 {
+		name += "/noask"
+	}
 	return sched.Scenario{Name: name, Run: func(w *sched.W) {
 		t := buildTree(par, mask, -1)
+		t.NoAsk = len(noask) > 0 // the device lets authenticated escalations through without asking
 		for cur := 0; cur < n; cur++ {
 			for tgt := 0; tgt < n; tgt++ {
 				for _, cache := range []string{"correct", "unknown", "stale"} {
@@ -426,6 +430,12 @@ func scenarios(tier string) []sched.Scenario {
 				out = append(out, pairScenario(par, m, 0, 0))
 				out = append(out, pairScenario(par, m, 1, 0))
 				out = append(out, pairScenario(par, m, 0, 1))
+				if m != 0 {
+					out = append(out, pairScenario(par, m, 0, 0, true), pairScenario(par, m, 1, 0, true))
+					if n <= 4 {
+						out = append(out, pairScenario(par, m, 0, 1, true))
+					}
+				}
 				if tier == "thorough" && n <= 4 {
 					out = append(out, pairScenario(par, m, 0, 2))
 				}
@@ -437,13 +447,15 @@ func scenarios(tier string) []sched.Scenario {
 		maxLen = 3
 	}
 	ios := iosxeTree()
+	iosNoAsk := iosxeTree()
+	iosNoAsk.NoAsk = true
 	y := buildTree([]int{0, 0, 1, 1, 2}, 0, 3)
 	firsts := []step{{"command", ""}, {"commands", ""}, {"configs", ""}, {"config", ""}, {"nope", "nope"}, {"interactive", ""}}
 	for _, tr := range []struct {
 		name          string
 		t             *cm.TreeDev
 		root, desired string
-	}{{"iosxe", ios, "exec", "privilege-exec"}, {"iosxe", ios, "exec", "exec"}, {"Y", y, "n0", "n1"}, {"Y", y, "n0", "n4"}, {"junos", junosTree(), "exec", "exec"}} {
+	}{{"iosxe", ios, "exec", "privilege-exec"}, {"iosxe", ios, "exec", "exec"}, {"iosxe-noask", iosNoAsk, "exec", "privilege-exec"}, {"Y", y, "n0", "n1"}, {"Y", y, "n0", "n4"}, {"junos", junosTree(), "exec", "exec"}} {
 		var levels []string
 		for l := range tr.t.Levels {
 			levels = append(levels, l)
@@ -464,7 +476,7 @@ func TestCheck(t *testing.T) {
 	sched.Main(t, sched.Check{
 		ID:          "C04",
 		Level:       "model_checking",
-		Rule:        "trees: every rooted unlabelled shape with <=5 nodes (17) x every subset of authenticated edges (n<=4); for each every ordered (current, target) pair x driver cache {correct, UNKNOWN, stale} with the device forced into `current`, whole-buffer and 1-byte reads (+ every single extra cut/hold; every two for n<=4 in thorough); histories: every sequence of <=3 (4 thorough) operations over {SendCommand, SendCommands, SendConfigs, SendConfig, AcquirePriv(each level), AcquirePriv(unknown), SendInteractive(default / at each level)} incl. config lines that leave configuration mode, configs at an explicit level and hops answered after the timeout, on the IOS-XE 4-level tree (authenticated enable, not-contains disambiguation), a 5-node Y tree (two default levels each) and a Junos-like tree with two same-prompt configuration levels; device model = one mode per level that objects to anything but its own transitions; oracle = unique tree path, final level, level at which each line arrived",
+		Rule:        "trees: every rooted unlabelled shape with <=5 nodes (17) x every subset of authenticated edges (n<=4); for each every ordered (current, target) pair x driver cache {correct, UNKNOWN, stale} with the device forced into `current`, on a device that asks for the secret on authenticated edges and on one that grants them without asking, whole-buffer and 1-byte reads (+ every single extra cut/hold; every two for n<=4 in thorough); histories: every sequence of <=3 (4 thorough) operations over {SendCommand, SendCommands, SendConfigs, SendConfig, AcquirePriv(each level), AcquirePriv(unknown), SendInteractive(default / at each level)} incl. config lines that leave configuration mode, configs at an explicit level and hops answered after the timeout, on the IOS-XE 4-level tree (authenticated enable, not-contains disambiguation), a 5-node Y tree (two default levels each) and a Junos-like tree with two same-prompt configuration levels; device model = one mode per level that objects to anything but its own transitions; oracle = unique tree path, final level, level at which each line arrived",
 		Assumptions: []string{"levels have pairwise distinguishable prompts (so Go map iteration order cannot change the result), except in the Junos-like history tree whose two configuration levels share one prompt: there the device is only ever moved by the driver and no hop is interrupted", "the secondary secret is configured whenever an edge is authenticated"},
 		Scenarios:   scenarios,
 		Budget:      map[string]time.Duration{"quick": 5 * time.Minute, "thorough": 40 * time.Minute},
